@@ -79,6 +79,11 @@ P_INVIVO = {"quick": 0.004, "thorough": 0.015}
 def gen_knobs(rng, tier):
     if rng.random() < float(os.environ.get("VERIF_P_INVIVO") or P_INVIVO.get(tier, 0.006)):
         return {"population": "invivo", "family": "invivo"}
+    if rng.random() < 0.12:
+        faulted = rng.random() < 0.4
+        return {"population": "dict_faulted" if faulted else "dict", "family": rng.choice(F.DICT_NAMES), "n_ops": rng.randint(3, 24),
+                "max_size": rng.choice([1, 2, 4]), "w_save": rng.choice([3, 5]), "w_export": rng.choice([1, 2]), "w_restart": rng.choice([1, 2]),
+                "fault_budget": rng.randint(1, 2) if faulted else 0}
     names = sorted(FAMILY_NAMES)
     fam = rng.choice(names)
     key_kind = "cs" if fam == "callee_parameter_mapping" else rng.choice(["int", "int", "hash"])
@@ -113,6 +118,8 @@ FAMILY_NAMES = ["unit_gir", "scope_hierarchy", "unit_export_symbols", "class_id_
 def generate(rng, k):
     if k["population"] == "invivo":
         return invivo.gen_invivo_ops(rng)
+    if k["population"].startswith("dict"):
+        return generate_dict(rng, k)
     fam = F.general_families()[k["family"]]
     n_ids = len(k["ids"])
     ops = []
@@ -202,6 +209,140 @@ def _classify(res_json, i, M):
     return "corrupt_read"
 
 
+def generate_dict(rng, k):
+    fam = F.dict_families()[k["family"]]
+    ops = []
+    n_saves = 0
+    faults_left = k["fault_budget"]
+    weights = ["save"] * k["w_save"] + ["export"] * k["w_export"] + ["restart"] * k["w_restart"] + ["check"]
+    for _ in range(k["n_ops"]):
+        kind = rng.choice(weights) if n_saves else "save"
+        if kind == "save":
+            n_saves += 1
+            tok = 1000 * n_saves
+            op = {"op": "save", "tok": tok, "desc": fam.gen(rng, tok, rng.randint(1, k["max_size"]))}
+        elif kind == "restart":
+            if rng.random() < 0.6:
+                ops.append({"op": "export"})
+            op = {"op": "restart"}
+        else:
+            op = {"op": kind}
+        if faults_left and rng.random() < 0.3 and op["op"] in ("export", "restart"):
+            op["faults"] = [{"kind": rng.choice(["write_enospc", "write_torn"]) if op["op"] == "export" else "read_eio", "nth": 0,
+                             "frac": rng.choice([0.1, 0.5, 0.9])}]
+            faults_left -= 1
+        ops.append(op)
+    return ops
+
+
+def execute_dict(trace):
+    """dict-backed loaders: one file, an in-memory container; the durable model is exact (the file holds what the container
+    held at the last successful export)."""
+    import copy
+    import json as _json
+    from sim.canon import canon_guided
+    k = trace["knobs"]
+    fam = F.dict_families()[k["family"]]
+    faulted_pop = k["population"] == "dict_faulted"
+    run_dir = tempfile.mkdtemp(prefix="dict-", dir=_root)
+    diskseam.begin_run()
+    probes, faults, log = {}, {}, []
+    violation = None
+    model, durable, durable_damaged = {}, None, False
+
+    def hit(name, n=1):
+        probes[name] = probes.get(name, 0) + n
+
+    def sut(f):
+        buf = io.StringIO()
+        try:
+            with contextlib.redirect_stdout(buf), contextlib.redirect_stderr(buf):
+                return f(), buf.getvalue(), None
+        except SystemExit as e:
+            return None, buf.getvalue(), Quit(f"SystemExit({e.code})")
+        except Exception as e:  # noqa
+            return None, buf.getvalue(), e
+
+    def same(snap, ref):
+        return _json.dumps(canon_guided(snap, ref), sort_keys=True) == _json.dumps(canon(ref), sort_keys=True)
+
+    loader = fam.make(run_dir)
+    try:
+        for step, op in enumerate(trace["ops"]):
+            kind = op["op"]
+            diskseam.begin_op(op.get("faults", []) if faulted_pop else [])
+            if kind == "save":
+                _, out, err = sut(lambda: fam.apply(loader, model, op["desc"]))
+                diskseam.end_op()
+                if err is not None:
+                    violation = {"step": step, "cls": "save_failed", "detail": {"op": _short(op), "error": f"{type(err).__name__}: {str(err)[:300]}"}}
+                    break
+                log.append(["save"])
+            elif kind == "check":
+                diskseam.end_op()
+                if not same(fam.snapshot(loader), fam.model_snapshot(model)):
+                    violation = {"step": step, "cls": "dict_memory_mismatch", "detail": {"expected": cjson(fam.model_snapshot(model))[:600], "observed": cjson(fam.snapshot(loader))[:600]}}
+                    break
+                log.append(["check"])
+            elif kind == "export":
+                _, out, err = sut(loader.export)
+                fired, nw, nr, arrow_err = diskseam.end_op()
+                for fk, _p in fired:
+                    hit("fault_" + fk)
+                if fired or arrow_err:
+                    if err is not None or out.strip():
+                        hit("fault_reported")
+                    else:
+                        violation = {"step": step, "cls": "silent_write_failure", "detail": {"op": op, "fired": fired, "output": out}}
+                        break
+                    durable_damaged = True
+                    if arrow_err:
+                        violation = {"step": step, "cls": "unserialisable_item", "detail": {"op": op, "output": out[-400:]}}
+                        break
+                elif err is not None:
+                    violation = {"step": step, "cls": "export_failed", "detail": {"op": op, "error": f"{type(err).__name__}: {str(err)[:300]}"}}
+                    break
+                elif nw:
+                    durable, durable_damaged = copy.deepcopy(model), False
+                log.append(["export", nw, bool(fired)])
+            elif kind == "restart":
+                loader = fam.make(run_dir)
+                _, out, err = sut(loader.restore)
+                fired, nw, nr, _ = diskseam.end_op()
+                for fk, _p in fired:
+                    hit("fault_" + fk)
+                hit("dict_restore")
+                if err is not None:
+                    ok = fired or durable_damaged or (durable is None and isinstance(err, FileNotFoundError))
+                    if not ok:
+                        violation = {"step": step, "cls": "restore_failed", "detail": {"op": op, "error": f"{type(err).__name__}: {str(err)[:300]}"}}
+                        break
+                    model = {}
+                    loader = fam.make(run_dir)      # a failed restore leaves nothing usable behind
+                    log.append(["restart", "failed"])
+                else:
+                    ref = fam.model_snapshot(durable) if durable is not None else fam.model_snapshot({})
+                    snap = fam.snapshot(loader)
+                    if not durable_damaged and not same(snap, ref):
+                        violation = {"step": step, "cls": "dict_restore_mismatch", "detail": {"expected": cjson(ref)[:700], "observed": cjson(snap)[:700]}}
+                        break
+                    if M_tokens_missing(ref, snap):
+                        violation = {"step": step, "cls": "token_lost", "detail": {"expected": cjson(ref)[:600], "observed": cjson(snap)[:600]}}
+                        break
+                    model = copy.deepcopy(durable) if durable is not None else {}
+                    hit("restart_clean")
+                    log.append(["restart", "ok"])
+    finally:
+        shutil.rmtree(run_dir, ignore_errors=True)
+    return {"violation": violation, "probes": probes, "faults": faults_out(probes), "states": set(), "trans": set(),
+            "steps": len(trace["ops"]), "log": digest_hex([log, violation]),
+            "extra": {f"family:{fam.name}": 1, "feather_writes": diskseam.STATE["total_writes"], "feather_reads": diskseam.STATE["total_reads"]}}
+
+
+def M_tokens_missing(ref, snap):
+    return bool(tokens(canon(ref)) - tokens(canon(snap)))
+
+
 def execute_invivo(trace):
     """world B: the items produced by real analyses, read back by the pipeline itself and by a fresh Loader.restore()."""
     from sim.core import load_known
@@ -252,6 +393,8 @@ def execute(trace):
     k = trace["knobs"]
     if k["population"] == "invivo":
         return execute_invivo(trace)
+    if k["population"].startswith("dict"):
+        return execute_dict(trace)
     fam = F.general_families()[k["family"]]
     keys = [F.key_of(kd) for kd in k["ids"]]
     faulted_pop = k["population"] == "faulted"
@@ -591,6 +734,8 @@ def presignature(trace, violation):
 def signature(trace, violation):
     if violation["cls"].startswith("invivo:"):
         return violation["detail"].get("signature")
+    if trace["knobs"]["population"].startswith("dict"):
+        return f"dict|{trace['knobs']['family']}|{violation['cls']}|{_pattern(trace['ops'])}"
     if violation["cls"] == "unserialisable_item":
         return f"{trace['knobs']['family']}|unserialisable_item"
     return f"{trace['knobs']['family']}|{violation['cls']}|{_pattern(trace['ops'])}"
@@ -599,6 +744,13 @@ def signature(trace, violation):
 def simplify(trace):
     k = trace["knobs"]
     ops = trace["ops"]
+    if k["population"].startswith("dict"):
+        for i, op in enumerate(ops):
+            if op.get("faults"):
+                o = dict(op)
+                o.pop("faults")
+                yield dict(trace, ops=ops[:i] + [o] + ops[i + 1:])
+        return
     if k["population"] == "invivo":
         for i, op in enumerate(ops):
             if op["op"] == "run":
